@@ -194,6 +194,47 @@ def main():
             got = "AMBIGUOUS" if str(e).startswith("Ambiguous") else "NOMETHOD" if str(e).startswith("No method") else f"TypeError:{str(e)[:40]}"
         if got != want:
             fail("keyword_only_class_argument_through_recurse_and_call_next", got=repr(got)[:100], expected=repr(want))
+    # METHODS with a class-valued argument followed by an ordinary one: a rewritten recurse / call_next site must key the
+    # arguments exactly like a call through the bound method does (self is not one of the dispatched positions)
+    from ovld import OvldBase, extend_super
+
+    class Ser(OvldBase):
+        def ser(self, t: type[int], x: object):
+            return ("int", x)
+
+        def ser(self, t: type[str], x: object):
+            return ["str", call_next(t, x)]
+
+        def ser(self, t: type[list], x: list):
+            return ["list"] + [recurse(type(y), y) for y in x] + [recurse(list[int], None), recurse(int, x)]
+
+        def ser(self, t: type[list[int]], x: object):
+            return "list[int]"
+
+        def ser(self, t: object, x: object):
+            return ("fallback", getattr(t, "__name__", str(t)))
+
+    class Ser2(Ser):
+        @extend_super
+        def ser(self, t: type[float], x: object):
+            return ["float", recurse(int, x)]
+
+    for cls in (Ser, Ser2):
+        inst = cls()
+        cases = [
+            (lambda: inst.ser(list, [1, "a", 2.5]), ["list", ("int", 1), ["str", ("fallback", "str")], (["float", ("int", 2.5)] if cls is Ser2 else ("fallback", "float")), "list[int]", ("int", [1, "a", 2.5])]),
+            (lambda: inst.ser(bool, 0), ("int", 0)),
+        ]
+        for call, want in cases:
+            n += 1
+            try:
+                got = call()
+            except TypeError as e:
+                got = "AMBIGUOUS" if str(e).startswith("Ambiguous") else "NOMETHOD" if str(e).startswith("No method") else f"TypeError:{str(e)[:40]}"
+            except Exception as e:
+                got = f"{type(e).__name__}:{str(e)[:40]}"
+            if got != want:
+                fail("class_argument_of_a_method_through_recurse_and_call_next", cls=cls.__name__, got=repr(got)[:160], expected=repr(want)[:160])
     print(json.dumps(dict(evaluations=n, failing=list(failing.values()))))
     return 1 if failing else 0
 
